@@ -1,6 +1,7 @@
 package main
 
 import (
+	"reflect"
 	"fmt"
 	"go/constant"
 	"go/token"
@@ -834,4 +835,170 @@ func ruleC05_6(c *Ctx, r *Rep) {
 		}
 	}
 	r.Floor("C05.6", n, 2)
+}
+
+// ---------------------------------------------------------------------------
+// C09.7: the retrying transaction runner. In DoCtxTxRetry: every exit returns the result of the LAST run (so nil only
+// if that run succeeded — and therefore committed); a further run is started only when the previous one failed and
+// the retry predicate accepted that error.
+func ruleC09_7(c *Ctx, r *Rep) {
+	fn := r.Anchor("C09.7", "(*ent.Client).DoCtxTxRetry")
+	if fn == nil {
+		return
+	}
+	var runs []*ssa.Call
+	for _, ci := range callsIn(fn, false, func(cal *ssa.Function, _ ssa.CallInstruction) bool {
+		return fnIs(cal, entPkg, "Client.DoTx") || fnIs(cal, entPkg, "Client.DoCtxTx")
+	}) {
+		if call, ok := ci.(*ssa.Call); ok {
+			runs = append(runs, call)
+		}
+	}
+	if len(runs) != 1 {
+		r.Fail("C09.7", "C09.7:shape", fn.Pos(), fmt.Sprintf("expected one call of the transaction runner inside the retry loop, found %d", len(runs)))
+		return
+	}
+	run := runs[0]
+	okRet := true
+	for _, ret := range returnsOf(fn) {
+		rv := retResult(ret, 0)
+		if !(rv == ssa.Value(run) || dependsOnValue(rv, run)) {
+			okRet = false
+		}
+		// returning a constant nil is only right under run == nil
+		if isNilConst(rv) {
+			okRet = condHas(edgeConds(ret.Block()), true, func(v ssa.Value) bool {
+				bo, ok := v.(*ssa.BinOp)
+				return ok && bo.Op == token.EQL && bo.X == ssa.Value(run) && isNilConst(bo.Y)
+			})
+		}
+	}
+	r.Check("C09.7", "C09.7:result-is-last-run", run.Pos(), okRet, "every exit returns the last run's result", "DoCtxTxRetry can return something else than the result of its last run: a failed (rolled back) operation is reported as successful, or a successful one as failed")
+	// the loop goes round only after retry(ctx, err) == true with err != nil
+	okLoop := false
+	for _, l := range loopsOf(fn) {
+		if !l.Blocks[run.Block()] {
+			continue
+		}
+		okLoop = true
+		for _, p := range l.Header.Preds {
+			if !l.Blocks[p] {
+				continue // entry edge
+			}
+			cs := edgeConds(p)
+			if len(p.Instrs) > 0 {
+				if iff, isIf := p.Instrs[len(p.Instrs)-1].(*ssa.If); isIf && len(p.Succs) == 2 {
+					nc := normCond(iff.Cond, p.Succs[0] == l.Header)
+					cs = append(cs, nc)
+					cs = append(cs, expandBoolPhi(nc, 0)...)
+				}
+			}
+			accepted, failed := false, false
+			for _, cd := range cs {
+				nc := normCond(cd.V, cd.Pol)
+				if call, isCall := nc.V.(*ssa.Call); isCall && nc.Pol {
+					if pv, isP := call.Call.Value.(*ssa.Parameter); isP && pv.Parent() == fn {
+						for _, a := range call.Call.Args {
+							if a == ssa.Value(run) {
+								accepted = true
+							}
+						}
+					}
+				}
+				if bo, isB := nc.V.(*ssa.BinOp); isB && bo.X == ssa.Value(run) && isNilConst(bo.Y) {
+					if (bo.Op == token.NEQ) == nc.Pol {
+						failed = true
+					}
+				}
+			}
+			if !(accepted && failed) {
+				okLoop = false
+			}
+		}
+	}
+	r.Check("C09.7", "C09.7:retry-only-accepted-failures", run.Pos(), okLoop, "another run only after a failure the retry predicate accepted", "DoCtxTxRetry starts another run although the previous one succeeded, or without asking the retry predicate: an operation is applied twice / a permanent failure is retried forever")
+}
+
+// ---------------------------------------------------------------------------
+// C09.8: an error that reaches a client keeps being an error: status.Error / status.Errorf with codes.OK return nil,
+// so no conversion to a gRPC status may use the OK code (constant 0, or a computed code that can be 0).
+func ruleC09_8(c *Ctx, r *Rep) {
+	n := 0
+	for _, f := range c.Funcs {
+		pk := c.PkgOf(f)
+		if !(pk == "services" || pk == "grpc" || pk == "actions" || pk == "controllers") || c.testSupport(f) {
+			continue
+		}
+		for _, ci := range callsIn(f, false, func(cal *ssa.Function, _ ssa.CallInstruction) bool {
+			return strings.HasSuffix(fnPkgPath(cal), "google.golang.org/grpc/status") && (cal.Name() == "Error" || cal.Name() == "Errorf" || cal.Name() == "New" || cal.Name() == "Newf")
+		}) {
+			n++
+			code := ci.Common().Args[0]
+			ok := true
+			var chk func(v ssa.Value, d int)
+			seen := map[ssa.Value]bool{}
+			chk = func(v ssa.Value, d int) {
+				if seen[v] || d > 8 {
+					return
+				}
+				seen[v] = true
+				switch x := v.(type) {
+				case *ssa.Const:
+					if k, isK := constInt(x); isK && k == 0 {
+						ok = false
+					}
+				case *ssa.Phi:
+					for _, e := range x.Edges {
+						chk(e, d+1)
+					}
+				case *ssa.UnOp:
+					if al, isA := x.X.(*ssa.Alloc); isA && x.Op == token.MUL {
+						for _, st := range allocStores(al) {
+							chk(st.Val, d+1)
+						}
+					}
+				}
+			}
+			chk(code, 0)
+			r.Check("C09.8", fmt.Sprintf("C09.8:status-code#%d@%s", n, c.Key(f)), ci.Pos(), ok, "never codes.OK", "an error is converted to a gRPC status with code OK: status.Error returns nil for it, so the failure is reported to the client as success")
+		}
+	}
+	r.Floor("C09.8", n, 40)
+}
+
+// ---------------------------------------------------------------------------
+// C06.6: the record handed to deadLetterDelivery describes THIS delivery: built from entities, its four fields come
+// from the delivery's id / subscription_id / message_id and the subscription's dead_letter_topic_id; scanned by the
+// sweep, the struct tags name exactly those columns.
+func ruleC06_6(c *Ctx, r *Rep) {
+	if fn := r.Anchor("C06.6", "actions.deadLetterDataFromEntities"); fn != nil {
+		st := fieldStores(fn, modPath+"/actions", "deadLetterData")
+		checkDeps(c, r, "C06.6", "deadLetterDataFromEntities", fn, st, []depSpec{
+			{"DeliveryID", []string{"field:ID"}, []string{"field:SubscriptionID", "field:MessageID", "field:DeadLetterTopicID"}},
+			{"DeliverySubscriptionID", []string{"field:SubscriptionID"}, []string{"field:MessageID", "field:DeadLetterTopicID"}},
+			{"DeliveryMessageID", []string{"field:MessageID"}, []string{"field:SubscriptionID", "field:DeadLetterTopicID"}},
+			{"DeadLetterTopicID", []string{"field:DeadLetterTopicID"}, []string{"field:MessageID", "field:TopicID"}},
+		})
+		for _, s := range st["DeliveryID"] {
+			src := sources(s.Val)
+			r.Check("C06.6", "C06.6:DeliveryID←delivery.ID", s.Pos(), src["param:delivery"] && !src["param:sub"], "", "the delivery to retire is not identified by the delivery's own id")
+		}
+	}
+	// struct tags (the sweep scans straight into this struct)
+	if p := c.PkgByPath[modPath+"/actions"]; p != nil {
+		if obj := p.Types.Scope().Lookup("deadLetterData"); obj != nil {
+			if stt, ok := obj.Type().Underlying().(*types.Struct); ok {
+				want := map[string]string{"DeliveryID": "id", "DeliverySubscriptionID": "subscription_id", "DeliveryMessageID": "message_id", "DeadLetterTopicID": "dead_letter_topic_id"}
+				for i := 0; i < stt.NumFields(); i++ {
+					f := stt.Field(i)
+					if w, has := want[f.Name()]; has {
+						tag := reflect.StructTag(stt.Tag(i)).Get("sql")
+						r.Check("C06.6", "C06.6:tag:"+f.Name(), f.Pos(), tag == w, "sql:\""+w+"\"", "deadLetterData."+f.Name()+" is scanned from column `"+tag+"` instead of `"+w+"`: the sweep retires / forwards the wrong row")
+					}
+				}
+			}
+		} else {
+			r.Fail("C06.6", "anchor:actions.deadLetterData", token.NoPos, "type deadLetterData not found")
+		}
+	}
 }
